@@ -924,5 +924,1421 @@ theorem forestB_iff (s : St) : forestB s = true ↔ Forest s := by
 
 instance (s : St) : Decidable (Forest s) := decidable_of_iff _ (forestB_iff s)
 
+
+/-! ### `get_track_neighbors`: sort + scan -/
+
+/-- the time key the sort and the scan use (`0` for an unknown node) -/
+def tm (s : St) (n : Node) : Nat := (s.timeOf n).getD 0
+
+theorem mem_insByTime (s : St) (x y : Node) (l : List Node) :
+    y ∈ insByTime s x l ↔ y = x ∨ y ∈ l := by
+  induction l with
+  | nil => simp [insByTime]
+  | cons a r ih =>
+    unfold insByTime
+    split
+    · simp [ih]; constructor
+      · rintro (h | h | h) <;> simp [h]
+      · rintro (h | h | h) <;> simp [h]
+    · simp
+
+theorem sorted_insByTime (s : St) (x : Node) (l : List Node)
+    (h : l.Pairwise (fun a b => tm s a ≤ tm s b)) :
+    (insByTime s x l).Pairwise (fun a b => tm s a ≤ tm s b) := by
+  induction l with
+  | nil => simp [insByTime]
+  | cons a r ih =>
+    unfold insByTime
+    rw [List.pairwise_cons] at h
+    split
+    · rename_i hle
+      rw [List.pairwise_cons]
+      refine ⟨?_, ih h.2⟩
+      intro b hb
+      rcases (mem_insByTime s x b r).mp hb with rfl | hb
+      · exact hle
+      · exact h.1 b hb
+    · rename_i hle
+      have hlt : tm s x < tm s a := by unfold tm; omega
+      rw [List.pairwise_cons]
+      refine ⟨?_, List.pairwise_cons.mpr h⟩
+      intro b hb
+      rcases List.mem_cons.mp hb with rfl | hb
+      · omega
+      · have := h.1 b hb; omega
+
+theorem sortFold_spec (s : St) (l init : List Node)
+    (h : init.Pairwise (fun a b => tm s a ≤ tm s b)) :
+    (l.foldl (fun acc x => insByTime s x acc) init).Pairwise (fun a b => tm s a ≤ tm s b) ∧
+    ∀ y, y ∈ l.foldl (fun acc x => insByTime s x acc) init ↔ y ∈ l ∨ y ∈ init := by
+  induction l generalizing init with
+  | nil => simp [h]
+  | cons a r ih =>
+    rw [List.foldl_cons]
+    obtain ⟨h1, h2⟩ := ih (insByTime s a init) (sorted_insByTime s a init h)
+    refine ⟨h1, fun y => ?_⟩
+    rw [h2, mem_insByTime]; simp; constructor
+    · rintro (h | h | h) <;> simp [h]
+    · rintro ((h | h) | h) <;> simp [h]
+
+theorem sorted_sortByTime (s : St) (l : List Node) :
+    (s.sortByTime l).Pairwise (fun a b => tm s a ≤ tm s b) :=
+  (sortFold_spec s l [] List.Pairwise.nil).1
+
+theorem mem_sortByTime (s : St) (l : List Node) (y : Node) : y ∈ s.sortByTime l ↔ y ∈ l := by
+  have := (sortFold_spec s l [] List.Pairwise.nil).2 y
+  simpa [sortByTime] using this
+
+theorem scan_spec (s : St) (time : Nat) (l : List Node) (p0 : Option Node)
+    (hs : l.Pairwise (fun a b => tm s a ≤ tm s b)) :
+    (∀ sc, (scanNeighbors s time l p0).2 = some sc →
+        sc ∈ l ∧ tm s sc > time ∧ ∀ c ∈ l, tm s c > time → tm s sc ≤ tm s c) ∧
+    ((scanNeighbors s time l p0).2 = none → ∀ c ∈ l, tm s c ≤ time) ∧
+    (∀ p, (scanNeighbors s time l p0).1 = some p →
+        (p ∈ l ∧ tm s p < time ∧ ∀ c ∈ l, tm s c < time → tm s c ≤ tm s p) ∨
+        (p0 = some p ∧ ∀ c ∈ l, ¬ tm s c < time)) ∧
+    ((scanNeighbors s time l p0).1 = none → p0 = none ∧ ∀ c ∈ l, ¬ tm s c < time) := by
+  induction l generalizing p0 with
+  | nil => simp [scanNeighbors]
+  | cons a r ih =>
+    rw [List.pairwise_cons] at hs
+    unfold scanNeighbors
+    simp only []
+    have ta : (s.timeOf a).getD 0 = tm s a := rfl
+    rw [ta]
+    by_cases c1 : tm s a < time
+    · rw [if_pos c1]
+      obtain ⟨i1, i2, i3, i4⟩ := ih (some a) hs.2
+      refine ⟨?_, ?_, ?_, ?_⟩
+      · intro sc h
+        obtain ⟨m, g, mn⟩ := i1 sc h
+        refine ⟨List.mem_cons_of_mem _ m, g, ?_⟩
+        intro c hc hgt
+        rcases List.mem_cons.mp hc with rfl | hc
+        · omega
+        · exact mn c hc hgt
+      · intro h c hc
+        rcases List.mem_cons.mp hc with rfl | hc
+        · omega
+        · exact i2 h c hc
+      · intro p h
+        left
+        rcases i3 p h with ⟨m, lt, mx⟩ | ⟨e, no⟩
+        · refine ⟨List.mem_cons_of_mem _ m, lt, ?_⟩
+          intro c hc hlt
+          rcases List.mem_cons.mp hc with rfl | hc
+          · exact hs.1 p m
+          · exact mx c hc hlt
+        · cases e
+          refine ⟨List.mem_cons_self, c1, ?_⟩
+          intro c hc hlt
+          rcases List.mem_cons.mp hc with rfl | hc
+          · exact Nat.le_refl _
+          · exact absurd hlt (no c hc)
+      · intro h
+        have := (i4 h).1; cases this
+    · rw [if_neg c1]
+      by_cases c2 : tm s a > time
+      · rw [if_pos c2]
+        have nolt : ∀ c ∈ a :: r, ¬ tm s c < time := by
+          intro c hc
+          rcases List.mem_cons.mp hc with rfl | hc
+          · exact c1
+          · have := hs.1 c hc; omega
+        refine ⟨?_, ?_, ?_, ?_⟩
+        · intro sc h
+          simp only [Option.some.injEq] at h; subst h
+          refine ⟨List.mem_cons_self, c2, ?_⟩
+          intro c hc _
+          rcases List.mem_cons.mp hc with rfl | hc
+          · exact Nat.le_refl _
+          · exact hs.1 c hc
+        · intro h; cases h
+        · intro p h; right; exact ⟨h, nolt⟩
+        · intro h; exact ⟨h, nolt⟩
+      · rw [if_neg c2]
+        obtain ⟨i1, i2, i3, i4⟩ := ih p0 hs.2
+        refine ⟨?_, ?_, ?_, ?_⟩
+        · intro sc h
+          obtain ⟨m, g, mn⟩ := i1 sc h
+          refine ⟨List.mem_cons_of_mem _ m, g, ?_⟩
+          intro c hc hgt
+          rcases List.mem_cons.mp hc with rfl | hc
+          · omega
+          · exact mn c hc hgt
+        · intro h c hc
+          rcases List.mem_cons.mp hc with rfl | hc
+          · omega
+          · exact i2 h c hc
+        · intro p h
+          rcases i3 p h with ⟨m, lt, mx⟩ | ⟨e, no⟩
+          · left
+            refine ⟨List.mem_cons_of_mem _ m, lt, ?_⟩
+            intro c hc hlt
+            rcases List.mem_cons.mp hc with rfl | hc
+            · omega
+            · exact mx c hc hlt
+          · right
+            refine ⟨e, ?_⟩
+            intro c hc
+            rcases List.mem_cons.mp hc with rfl | hc
+            · exact c1
+            · exact no c hc
+        · intro h
+          refine ⟨(i4 h).1, ?_⟩
+          intro c hc
+          rcases List.mem_cons.mp hc with rfl | hc
+          · exact c1
+          · exact (i4 h).2 c hc
+
+/-- `get_track_neighbors` returns the latest node of the listed track before `time` and the
+    earliest after it (no assumption on the bookkeeping) -/
+theorem trackNeighbors_spec (s : St) (tid time : Nat) :
+    let L := (alook tid s.t2n).getD []
+    let r := s.trackNeighbors tid time
+    (∀ sc, r.2.2 = some sc → sc ∈ L ∧ tm s sc > time ∧ ∀ c ∈ L, tm s c > time → tm s sc ≤ tm s c) ∧
+    (r.2.2 = none → ∀ c ∈ L, tm s c ≤ time) ∧
+    (∀ p, r.2.1 = some p → p ∈ L ∧ tm s p < time ∧ ∀ c ∈ L, tm s c < time → tm s c ≤ tm s p) ∧
+    (r.2.1 = none → ∀ c ∈ L, ¬ tm s c < time) := by
+  intro L r
+  rcases hl : alook tid s.t2n with _ | cands
+  · simp [L, r, trackNeighbors, hl]
+  · rcases cands with _ | ⟨c0, cs⟩
+    · simp [L, r, trackNeighbors, hl]
+    · have hr : r = ({ s with t2n := aset tid (s.sortByTime (c0 :: cs)) s.t2n },
+          (scanNeighbors s time (s.sortByTime (c0 :: cs)) none).1,
+          (scanNeighbors s time (s.sortByTime (c0 :: cs)) none).2) := by
+        simp only [r, trackNeighbors, hl]
+      have hL : L = c0 :: cs := by simp [L, hl]
+      obtain ⟨i1, i2, i3, i4⟩ := scan_spec s time (s.sortByTime (c0 :: cs)) none
+        (sorted_sortByTime s _)
+      rw [hr, hL]
+      simp only [mem_sortByTime] at i1 i2 i3 i4
+      refine ⟨i1, i2, ?_, fun h => (i4 h).2⟩
+      intro p h
+      rcases i3 p h with h' | ⟨e, _⟩
+      · exact h'
+      · cases e
+
+end St
+end Ft
+
+namespace Ft
+namespace St
+
+/-! #### UserAddNode -/
+
+/-- division checks of `uAddNode` (with forced removals) -/
+def addNodePre (sN : St) (pred succ : Option Node) (force : Bool) : UOut :=
+    match pred with
+    | some p =>
+      if sN.outdeg p == 2 then
+        if !force then (sN, .error .forceable)
+        else match sN.succs p with
+          | [c1, c2] =>
+            let b := thenUser (sN, .ok []) (fun st => st.uDeleteEdge (p, c1))
+            thenUser b (fun st => st.uDeleteEdge (p, c2))
+          | _ => (sN, .error .other)
+      else
+        match succ with
+        | some sc =>
+          match (sN.preds sc).head? with
+          | some pos =>
+            if sN.outdeg pos == 2 then
+              if !force then (sN, .error .forceable)
+              else thenUser (sN, .ok []) (fun st => st.uDeleteEdge (pos, sc))
+            else (sN, .ok [])
+          | none => (sN, .ok [])
+        | none => (sN, .ok [])
+    | none =>
+      match succ with
+      | some sc =>
+        match (sN.preds sc).head? with
+        | some pos =>
+          if sN.outdeg pos == 2 then
+            if !force then (sN, .error .forceable)
+            else thenUser (sN, .ok []) (fun st => st.uDeleteEdge (pos, sc))
+          else (sN, .ok [])
+        | none => (sN, .ok [])
+      | none => (sN, .ok [])
+
+def addNodeFinish (s2 : St) (recs : List PrimRec) (pred succ : Option Node) (node : Node) : UOut :=
+  let a2 : UOut := (s2, .ok recs)
+  let a3 := match pred with
+    | some p => thenPrim a2 (fun st => st.pAddEdge (p, node) [])
+    | none => a2
+  match succ with
+  | some sc => thenPrim a3 (fun st => st.pAddEdge (node, sc) [])
+  | none => a3
+
+def addNodeTail (a0 : UOut) (pred succ : Option Node) (a : AddNodeArgs) (time tid : Nat) : UOut :=
+    let s0 := a0.1
+    let lin : Option Nat :=
+      match a.lin with
+      | some l => some l
+      | none =>
+        match pred, succ with
+        | some p, _ => s0.linOf p
+        | none, some sc => s0.linOf sc
+        | none, none => some s0.nextLin
+    let a1 : UOut :=
+      match pred, succ with
+      | some p, some sc => thenPrim a0 (fun st => st.pDelEdge (p, sc))
+      | _, _ => a0
+    match a1.2 with
+    | .error err => (a1.1, .error err)
+    | .ok recs1 =>
+      let rec_ : NodeRec := { id := a.node, time := time, tid := tid, lin := lin, other := a.other }
+      match a1.1.pAddNode rec_ a.pixels with
+      | .error err => (a1.1.rollback recs1, .error err)
+      | .ok (s2, r) => addNodeFinish s2 (recs1 ++ [r]) pred succ a.node
+
+theorem uAddNode_eq (s : St) (a : AddNodeArgs) :
+    s.uAddNode a =
+      match a.time, a.tid with
+      | none, _ => (s, .error .invalid)
+      | _, none => (s, .error .invalid)
+      | some time, some tid0 =>
+      if s.hasNode a.node then (s, .error .invalid) else
+      let tid := if s.hasTrackAt tid0 time then s.nextTid else tid0
+      let r := s.trackNeighbors tid time
+      let a0 := addNodePre r.1 r.2.1 r.2.2 a.force
+      match a0.2 with
+      | .error err => (a0.1, .error err)
+      | .ok _ => addNodeTail a0 r.2.1 r.2.2 a time tid := by
+  rfl
+
+end St
+end Ft
+
+namespace Ft
+namespace St
+
+theorem uDeleteEdge_G' (s : St) (e : Edge) :
+    G (s.uDeleteEdge e).1 = (s.nt, s.edgeList.filter (· != e)) := by
+  rw [uDeleteEdge_G]
+  split
+  · rfl
+  · rename_i hne
+    congr 1
+    symm; rw [List.filter_eq_self]
+    intro x hx; simp; intro hxe; exact hne (hxe ▸ hx)
+
+theorem thenUser_nt {a : UOut} {f : St → UOut} (hf : ∀ st, (f st).1.nt = st.nt) :
+    (thenUser a f).1.nt = a.1.nt := by
+  unfold thenUser
+  split
+  · rfl
+  · simp only []; split <;> exact hf _
+
+theorem uDeleteEdge_nt (s : St) (e : Edge) : (s.uDeleteEdge e).1.nt = s.nt :=
+  G_nt' (uDeleteEdge_G' s e)
+
+theorem tm_of_not_mem {s : St} {n : Node} (h : n ∉ s.ids) : tm s n = 0 := by
+  unfold tm
+  rw [timeOf_eq_nt]
+  rcases ht : tlook s.nt n with _ | t
+  · rfl
+  · have := tlook_mem ht
+    exact absurd (by rw [ids_eq_nt]; exact List.mem_map.mpr ⟨_, this, rfl⟩) h
+
+theorem timeOf_of_mem {s : St} {n : Node} (h : n ∈ s.ids) : s.timeOf n = some (tm s n) := by
+  unfold tm
+  rw [timeOf_eq_nt]
+  obtain ⟨t, ht⟩ := tlook_isSome (l := s.nt) (n := n) (by rw [← ids_eq_nt]; exact h)
+  rw [ht]; rfl
+
+theorem tm_congr {s t : St} (h : t.nt = s.nt) (n : Node) : tm t n = tm s n := by
+  unfold tm; rw [timeOf_eq_nt, timeOf_eq_nt, h]
+
+theorem indeg_zero_of_not_mem {s : St} (hf : Forest s) {n : Node} (h : n ∉ s.ids) : s.indeg n = 0 := by
+  rw [indeg_eq, List.length_eq_zero_iff, List.filter_eq_nil_iff]
+  intro x hx hx2
+  have : x.2 = n := by simpa using hx2
+  exact h (this ▸ hf.dst_mem x hx)
+
+theorem outdeg_zero_of_not_mem {s : St} (hf : Forest s) {n : Node} (h : n ∉ s.ids) : s.outdeg n = 0 := by
+  rw [outdeg_eq, List.length_eq_zero_iff, List.filter_eq_nil_iff]
+  intro x hx hx2
+  have : x.1 = n := by simpa using hx2
+  exact h (this ▸ hf.src_mem x hx)
+
+/-- `AddEdge` on a forest, with the resulting graph view -/
+theorem pAddEdge_forest_G {s s' : St} {e : Edge} {at_ : List (Key × Val)} {r : PrimRec}
+    (hf : Forest s) (hin : s.indeg e.2 = 0) (hout : s.outdeg e.1 ≤ 1)
+    (ht : tm s e.1 < tm s e.2)
+    (h : s.pAddEdge e at_ = .ok (s', r)) : Forest s' ∧ G s' = (s.nt, s.edgeList ++ [e]) := by
+  obtain ⟨h1, h2, h3⟩ := pAddEdge_G h
+  refine ⟨pAddEdge_forest hf hin hout ?_ h, ?_⟩
+  · intro t1 t2 e1 e2
+    rw [timeOf_of_mem h1] at e1; rw [timeOf_of_mem h2] at e2
+    cases e1; cases e2; exact ht
+  · have hne : e ∉ s.edgeList := by
+      intro he
+      rw [indeg_eq, List.length_eq_zero_iff] at hin
+      have : e ∈ s.edgeList.filter (·.2 == e.2) := by simp [he]
+      rw [hin] at this; simp at this
+    rw [if_neg hne] at h3; exact h3
+
+theorem indeg_append (s' : St) (es : List Edge) (e : Edge) (v : Node) (nt_ : List (Node × Nat))
+    (h : G s' = (nt_, es ++ [e])) :
+    s'.indeg v = (es.filter (·.2 == v)).length + (if e.2 = v then 1 else 0) := by
+  rw [indeg_eq, G_es' h, List.filter_append, List.length_append]
+  congr 1
+  by_cases c : e.2 = v <;> simp [c]
+
+theorem outdeg_append (s' : St) (es : List Edge) (e : Edge) (v : Node) (nt_ : List (Node × Nat))
+    (h : G s' = (nt_, es ++ [e])) :
+    s'.outdeg v = (es.filter (·.1 == v)).length + (if e.1 = v then 1 else 0) := by
+  rw [outdeg_eq, G_es' h, List.filter_append, List.length_append]
+  congr 1
+  by_cases c : e.1 = v <;> simp [c]
+
+theorem addNodeFinish_FOk {s1 s2 : St} {recs : List PrimRec} {pred succ : Option Node}
+    {node : Node} {time : Nat}
+    (hf : Forest s1) (hn : node ∉ s1.ids)
+    (hG : G s2 = (s1.nt ++ [(node, time)], s1.edgeList))
+    (hp : ∀ p, pred = some p → p ∈ s1.ids ∧ tm s1 p < time ∧ s1.outdeg p ≤ 1)
+    (hs : ∀ sc, succ = some sc → tm s1 sc > time ∧ s1.indeg sc = 0) :
+    FOk (addNodeFinish s2 recs pred succ node) := by
+  have hf2 : Forest s2 :=
+    forest_of_G hG (((forest_iff s1).mp hf).addNode (by rw [← ids_eq_nt]; exact hn))
+  have hes2 : s2.edgeList = s1.edgeList := G_es' hG
+  have hnt2 : s2.nt = s1.nt ++ [(node, time)] := G_nt' hG
+  have tm_old : ∀ m, m ∈ s1.ids → tm s2 m = tm s1 m := by
+    intro m hm; unfold tm
+    rw [timeOf_eq_nt, timeOf_eq_nt, hnt2, tlook_append_of_mem _ (by rw [← ids_eq_nt]; exact hm)]
+  have tm_new : tm s2 node = time := by
+    unfold tm; rw [timeOf_eq_nt, hnt2]; unfold tlook
+    rw [List.find?_append]
+    have : s1.nt.find? (·.1 == node) = none := by
+      rw [List.find?_eq_none]; intro x hx hx2
+      apply hn; rw [ids_eq_nt]; exact List.mem_map.mpr ⟨x, hx, by simpa using hx2⟩
+    rw [this]; simp
+  have in2 : ∀ v, s2.indeg v = s1.indeg v := fun v => by rw [indeg_eq, indeg_eq, hes2]
+  have out2 : ∀ v, s2.outdeg v = s1.outdeg v := fun v => by rw [outdeg_eq, outdeg_eq, hes2]
+  have sc_mem : ∀ sc, succ = some sc → sc ∈ s1.ids := by
+    intro sc h
+    apply Classical.byContradiction; intro hc
+    have := (hs sc h).1; rw [tm_of_not_mem hc] at this; omega
+  unfold addNodeFinish
+  intro r hr
+  simp only [] at hr ⊢
+  rcases pred with _ | p
+  · rcases succ with _ | sc
+    · exact hf2
+    · simp only [] at hr ⊢
+      obtain ⟨_, s', _, _, h1, h2, _⟩ := thenPrim_ok hr
+      rw [h2]
+      have scm := sc_mem sc rfl
+      refine (pAddEdge_forest_G hf2 ?_ ?_ ?_ h1).1
+      · rw [in2]; exact (hs sc rfl).2
+      · rw [out2, outdeg_zero_of_not_mem hf hn]; omega
+      · show tm s2 node < tm s2 sc
+        rw [tm_new, tm_old sc scm]; exact (hs sc rfl).1
+  · obtain ⟨pm, pt, po⟩ := hp p rfl
+    have pne : p ≠ node := fun h => hn (h ▸ pm)
+    rcases succ with _ | sc
+    · simp only [] at hr ⊢
+      obtain ⟨_, s', _, _, h1, h2, _⟩ := thenPrim_ok hr
+      rw [h2]
+      refine (pAddEdge_forest_G hf2 ?_ ?_ ?_ h1).1
+      · rw [in2]; exact indeg_zero_of_not_mem hf hn
+      · rw [out2]; exact po
+      · show tm s2 p < tm s2 node
+        rw [tm_new, tm_old p pm]; exact pt
+    · simp only [] at hr ⊢
+      obtain ⟨_, s4, _, h0, h1, h2, _⟩ := thenPrim_ok hr
+      obtain ⟨_, s3, _, _, h3, h4, _⟩ := thenPrim_ok h0
+      rw [h2]
+      rw [h4] at h1
+      have scm := sc_mem sc rfl
+      have scne : sc ≠ node := fun h => hn (h ▸ scm)
+      obtain ⟨hf3, hG3⟩ := pAddEdge_forest_G (e := (p, node)) hf2
+        (by rw [in2]; exact indeg_zero_of_not_mem hf hn) (by rw [out2]; exact po)
+        (by show tm s2 p < tm s2 node; rw [tm_new, tm_old p pm]; exact pt) h3
+      have tm3 : ∀ m, tm s3 m = tm s2 m := tm_congr (G_nt' hG3)
+      refine (pAddEdge_forest_G hf3 ?_ ?_ ?_ h1).1
+      · rw [indeg_append _ _ _ _ _ hG3, ← indeg_eq, in2, (hs sc rfl).2]
+        simp; exact fun h => scne h.symm
+      · rw [outdeg_append _ _ _ _ _ hG3, ← outdeg_eq, out2, outdeg_zero_of_not_mem hf hn]
+        simp [pne]
+      · show tm s3 node < tm s3 sc
+        rw [tm3, tm3, tm_new, tm_old sc scm]; exact (hs sc rfl).1
+
+end St
+end Ft
+
+namespace Ft
+namespace St
+
+theorem thenUser_inv (P : St → Prop) {a : UOut} {f : St → UOut} (ha : P a.1)
+    (hf : ∀ st, P st → P (f st).1) : P (thenUser a f).1 := by
+  unfold thenUser
+  split
+  · exact ha
+  · simp only []; split <;> exact hf _ ha
+
+theorem addNodePre_basic {sN : St} (pred succ : Option Node) (force : Bool) (hf : Forest sN) :
+    Forest (addNodePre sN pred succ force).1 ∧ (addNodePre sN pred succ force).1.nt = sN.nt := by
+  have base : Forest sN ∧ sN.nt = sN.nt := ⟨hf, rfl⟩
+  have step : ∀ e st, (Forest st ∧ st.nt = sN.nt) →
+      (Forest (st.uDeleteEdge e).1 ∧ (st.uDeleteEdge e).1.nt = sN.nt) :=
+    fun e st h => ⟨uDeleteEdge_forest e h.1, by rw [uDeleteEdge_nt]; exact h.2⟩
+  unfold addNodePre
+  repeat' (first
+    | exact base
+    | exact thenUser_inv (fun st => Forest st ∧ st.nt = sN.nt) base (step _)
+    | exact thenUser_inv (fun st => Forest st ∧ st.nt = sN.nt)
+        (thenUser_inv (fun st => Forest st ∧ st.nt = sN.nt) base (step _)) (step _)
+    | split)
+
+theorem head?_none_indeg {s : St} {v : Node} (h : (s.preds v).head? = none) : s.indeg v = 0 := by
+  unfold indeg
+  cases hp : s.preds v with
+  | nil => rfl
+  | cons a r => rw [hp] at h; simp at h
+
+theorem addNodePre_ok {sN : St} {pred succ : Option Node} {force : Bool} {r0 : List PrimRec}
+    (hf : Forest sN) (h : (addNodePre sN pred succ force).2 = .ok r0) :
+    (∀ p, pred = some p → succ = none → (addNodePre sN pred succ force).1.outdeg p ≤ 1) ∧
+    (pred = none → ∀ sc, succ = some sc →
+        (∀ pos, (pos, sc) ∈ sN.edgeList → sN.outdeg pos = 2) →
+        (addNodePre sN pred succ force).1.indeg sc = 0) := by
+  refine ⟨?_, ?_⟩
+  · rintro p rfl rfl
+    unfold addNodePre at h ⊢
+    simp only [] at h ⊢
+    by_cases c : (sN.outdeg p == 2) = true
+    · rw [if_pos c] at h ⊢
+      cases force
+      · simp at h
+      · simp only [Bool.not_true, Bool.false_eq_true, if_false] at h ⊢
+        rcases hsucc : sN.succs p with _ | ⟨c1, _ | ⟨c2, _ | ⟨c3, r⟩⟩⟩
+        · rw [hsucc] at h; simp at h
+        · rw [hsucc] at h; simp at h
+        · simp only []
+          obtain ⟨_, _, _, _, e2, _⟩ := thenUser_ok (by rw [hsucc] at h; exact h)
+          rw [e2]
+          generalize hb : thenUser (sN, Except.ok []) (fun st => st.uDeleteEdge (p, c1)) = b
+          have hb1 : b.1.edgeList = sN.edgeList.filter (· != (p, c1)) := by
+            rw [← hb]
+            unfold thenUser
+            simp only []
+            split <;> exact G_es' (uDeleteEdge_G' sN (p, c1))
+          rw [outdeg_eq, G_es' (uDeleteEdge_G' b.1 (p, c2)), hb1]
+          refine Nat.le_trans (Nat.le_of_eq ?_) (Nat.zero_le 1)
+          rw [List.length_eq_zero_iff, List.filter_eq_nil_iff]
+          intro x hx hx2
+          rw [List.mem_filter, List.mem_filter] at hx
+          have x1 : x.1 = p := by simpa using hx2
+          have : x.2 ∈ sN.succs p := by
+            rw [succs_eq]; exact List.mem_map.mpr ⟨x, List.mem_filter.mpr ⟨hx.1.1, hx2⟩, rfl⟩
+          rw [hsucc] at this
+          have hx' : x = (p, x.2) := by rw [← x1]
+          simp at this
+          rcases this with h' | h'
+          · have := hx.1.2; rw [hx', h'] at this; simp at this
+          · have := hx.2; rw [hx', h'] at this; simp at this
+        · rw [hsucc] at h; simp at h
+    · rw [if_neg c] at h ⊢
+      simp only [] at h ⊢
+      have := hf.outdeg_le p
+      simp at c
+      omega
+  · rintro rfl sc rfl hpos
+    unfold addNodePre at h ⊢
+    simp only [] at h ⊢
+    rcases hp : (sN.preds sc).head? with _ | pos
+    · simp only []; exact head?_none_indeg hp
+    · rw [hp] at h
+      simp only [] at h ⊢
+      have hm := head?_preds_mem hp
+      have c : (sN.outdeg pos == 2) = true := by simp [hpos pos hm]
+      rw [if_pos c] at h ⊢
+      cases force
+      · simp at h
+      · simp only [Bool.not_true, Bool.false_eq_true, if_false] at h ⊢
+        obtain ⟨_, _, _, _, e2, _⟩ := thenUser_ok h
+        rw [e2, indeg_eq, G_es' (uDeleteEdge_G' _ _)]
+        exact filter_ne_indeg_zero (by rw [← indeg_eq]; exact hf.indeg_le sc) hm
+
+end St
+end Ft
+
+namespace Ft
+namespace St
+
+theorem length_filter_ne_lt {α} [BEq α] [LawfulBEq α] {l : List α} {a : α} (h : a ∈ l) :
+    (l.filter (· != a)).length < l.length := by
+  induction l with
+  | nil => simp at h
+  | cons x r ih =>
+    by_cases hx : x = a
+    · subst hx
+      have : (List.filter (fun y => y != x) (x :: r)) = List.filter (fun y => y != x) r := by
+        simp
+      rw [this]
+      exact Nat.lt_succ_of_le (List.length_filter_le _ _)
+    · have hr : a ∈ r := by
+        rcases List.mem_cons.mp h with h | h
+        · exact absurd h.symm hx
+        · exact h
+      have : (List.filter (fun y => y != a) (x :: r)) = x :: List.filter (fun y => y != a) r := by
+        simp [hx]
+      rw [this]
+      simp only [List.length_cons]
+      exact Nat.succ_lt_succ (ih hr)
+
+theorem outdeg_filter_lt {es : List Edge} {e : Edge} (h : e ∈ es) :
+    ((es.filter (· != e)).filter (·.1 == e.1)).length < (es.filter (·.1 == e.1)).length := by
+  have : (es.filter (· != e)).filter (·.1 == e.1) = (es.filter (·.1 == e.1)).filter (· != e) := by
+    rw [List.filter_filter, List.filter_filter]
+    apply List.filter_congr; intro x _; exact Bool.and_comm _ _
+  rw [this]
+  exact length_filter_ne_lt (List.mem_filter.mpr ⟨h, by simp⟩)
+
+theorem tail_common {a1 : UOut} {pred succ : Option Node} {rec_ : NodeRec}
+    {px : Option (List Pix)}
+    (hf : Forest a1.1) (hn : rec_.id ∉ a1.1.ids)
+    (hp : ∀ p, pred = some p → p ∈ a1.1.ids ∧ tm a1.1 p < rec_.time ∧ a1.1.outdeg p ≤ 1)
+    (hs : ∀ sc, succ = some sc → tm a1.1 sc > rec_.time ∧ a1.1.indeg sc = 0) :
+    FOk (match a1.2 with
+      | .error err => (a1.1, .error err)
+      | .ok recs1 =>
+        match a1.1.pAddNode rec_ px with
+        | .error err => (a1.1.rollback recs1, .error err)
+        | .ok (s2, r) => addNodeFinish s2 (recs1 ++ [r]) pred succ rec_.id) := by
+  rcases h1 : a1.2 with e | recs1
+  · intro r hr; cases hr
+  · simp only []
+    rcases h2 : a1.1.pAddNode rec_ px with e | ⟨s2, r⟩
+    · intro r hr; cases hr
+    · simp only []
+      exact addNodeFinish_FOk hf hn (pAddNode_G hn h2) hp hs
+
+theorem addNodeTail_FOk {a0 : UOut} {pred succ : Option Node} {a : AddNodeArgs} {time tid : Nat}
+    (hf : Forest a0.1) (hn : a.node ∉ a0.1.ids)
+    (hp : ∀ p, pred = some p → p ∈ a0.1.ids ∧ tm a0.1 p < time ∧ (succ = none → a0.1.outdeg p ≤ 1))
+    (hs : ∀ sc, succ = some sc → tm a0.1 sc > time ∧ (pred = none → a0.1.indeg sc = 0)) :
+    FOk (addNodeTail a0 pred succ a time tid) := by
+  unfold addNodeTail
+  simp only []
+  rcases pred with _ | p
+  · rcases succ with _ | sc
+    · exact tail_common (rec_ := ⟨a.node, time, tid, _, a.other⟩) hf hn (fun _ h => by cases h)
+        (fun _ h => by cases h)
+    · exact tail_common (rec_ := ⟨a.node, time, tid, _, a.other⟩) hf hn (fun _ h => by cases h)
+        (fun x h => by cases h; exact ⟨(hs sc rfl).1, (hs sc rfl).2 rfl⟩)
+  · obtain ⟨pm, pt, po⟩ := hp p rfl
+    rcases succ with _ | sc
+    · exact tail_common (rec_ := ⟨a.node, time, tid, _, a.other⟩) hf hn
+        (fun x h => by cases h; exact ⟨pm, pt, po rfl⟩) (fun _ h => by cases h)
+    · simp only []
+      rcases hd : a0.1.pDelEdge (p, sc) with e | ⟨s1, r1⟩
+      · have : thenPrim a0 (fun st => st.pDelEdge (p, sc)) =
+            (a0.1, .error (match a0.2 with | .error e' => e' | .ok _ => e)) := by
+          unfold thenPrim; split
+          · rename_i h; simp [h]
+          · rename_i h; simp [hd, h]
+        rw [this]; intro r hr; cases hr
+      · obtain ⟨hmem, hG1⟩ := pDelEdge_G hd
+        have hf1 : Forest s1 := pDelEdge_forest hf hd
+        rcases h0 : a0.2 with e | recs0
+        · have : thenPrim a0 (fun st => st.pDelEdge (p, sc)) = (a0.1, .error e) := thenPrim_err h0
+          rw [this]; intro r hr; cases hr
+        · have : thenPrim a0 (fun st => st.pDelEdge (p, sc)) = (s1, .ok (recs0 ++ [r1])) := by
+            unfold thenPrim; simp [h0, hd]
+          rw [this]
+          have hnt1 : s1.nt = a0.1.nt := G_nt' hG1
+          have hids : s1.ids = a0.1.ids := by rw [ids_eq_nt, ids_eq_nt, hnt1]
+          refine tail_common (a1 := (s1, .ok (recs0 ++ [r1]))) (rec_ := ⟨a.node, time, tid, _, a.other⟩)
+            hf1 (by rw [hids]; exact hn) ?_ ?_
+          · intro x h; cases h
+            refine ⟨by rw [hids]; exact pm, by rw [tm_congr hnt1]; exact pt, ?_⟩
+            show s1.outdeg p ≤ 1
+            rw [outdeg_eq, G_es' hG1]
+            have h1 := outdeg_filter_lt hmem
+            have h2 := hf.outdeg_le p
+            rw [outdeg_eq] at h2
+            exact Nat.le_of_lt_succ (Nat.lt_of_lt_of_le h1 h2)
+          · intro x h; cases h
+            refine ⟨by rw [tm_congr hnt1]; exact (hs sc rfl).1, ?_⟩
+            show s1.indeg sc = 0
+            rw [indeg_eq, G_es' hG1]
+            exact filter_ne_indeg_zero (by rw [← indeg_eq]; exact hf.indeg_le sc) hmem
+
+/-- what the track-neighbour query must satisfy for `UserAddNode` to keep a forest: the
+    predecessor is a node, and a successor without predecessor hangs (if at all) below a division.
+    Follows from `BookOK` and `TidOK.along` (`nbrOK_of_book`); fails for an inconsistent lookup. -/
+structure NbrAddOK (s : St) (tid time : Nat) : Prop where
+  pred_mem : ∀ p, (s.trackNeighbors tid time).2.1 = some p → p ∈ s.ids
+  succ_head : (s.trackNeighbors tid time).2.1 = none →
+    ∀ sc, (s.trackNeighbors tid time).2.2 = some sc →
+    ∀ pos, (pos, sc) ∈ s.edgeList → s.outdeg pos = 2
+
+/-- the track id `uAddNode` actually uses -/
+def addTid (s : St) (tid0 time : Nat) : Nat := if s.hasTrackAt tid0 time then s.nextTid else tid0
+
+theorem uAddNode_forest_of {s : St} {a : AddNodeArgs} {recs : List PrimRec}
+    (hf : Forest s)
+    (hN : ∀ time tid0, a.time = some time → a.tid = some tid0 → NbrAddOK s (addTid s tid0 time) time)
+    (h : (s.uAddNode a).2 = .ok recs) : Forest (s.uAddNode a).1 := by
+  revert recs
+  change FOk (s.uAddNode a)
+  rw [uAddNode_eq]
+  have err : ∀ (st : St) (e : Err), FOk (st, .error e) := fun _ e r h => by cases h
+  rcases hti : a.time with _ | time
+  · exact err _ _
+  · rcases htd : a.tid with _ | tid0
+    · exact err _ _
+    · simp only []
+      by_cases hnode : s.hasNode a.node = true
+      · rw [if_pos hnode]; exact err _ _
+      · rw [if_neg hnode]
+        have hnm : a.node ∉ s.ids := fun h => hnode ((hasNode_iff _ _).mpr h)
+        have hNb1 := (hN time tid0 hti htd).pred_mem
+        have hNb2 := (hN time tid0 hti htd).succ_head
+        unfold addTid at hNb1 hNb2
+        generalize (if s.hasTrackAt tid0 time = true then s.nextTid else tid0) = tid at hNb1 hNb2 ⊢
+        obtain ⟨sp1, sp2, sp3, sp4⟩ := trackNeighbors_spec s tid time
+        generalize hr : s.trackNeighbors tid time = r at hNb1 hNb2 sp1 sp2 sp3 sp4 ⊢
+        have hGr : G r.1 = G s := by rw [← hr]; exact G_trackNeighbors s tid time
+        have hfr : Forest r.1 := forest_congr hGr hf
+        obtain ⟨hf0, hnt0⟩ := addNodePre_basic r.2.1 r.2.2 a.force hfr
+        rcases h0 : (addNodePre r.1 r.2.1 r.2.2 a.force).2 with e | r0
+        · exact err _ _
+        · simp only []
+          obtain ⟨k1, k2⟩ := addNodePre_ok hfr h0
+          have hnt : (addNodePre r.1 r.2.1 r.2.2 a.force).1.nt = s.nt := by rw [hnt0, G_nt hGr]
+          have hids : (addNodePre r.1 r.2.1 r.2.2 a.force).1.ids = s.ids := by
+            rw [ids_eq_nt, ids_eq_nt, hnt]
+          apply addNodeTail_FOk hf0 (by rw [hids]; exact hnm)
+          · intro p hp
+            refine ⟨by rw [hids]; exact hNb1 p hp, ?_, fun hs => k1 p hp hs⟩
+            rw [tm_congr hnt]; exact (sp3 p hp).2.1
+          · intro sc hsc
+            refine ⟨by rw [tm_congr hnt]; exact (sp1 sc hsc).2.1, fun hp => k2 hp sc hsc ?_⟩
+            intro pos hpos
+            rw [G_es hGr] at hpos
+            rw [G_outdeg hGr]
+            exact hNb2 hp sc hsc pos hpos
+
+end St
+end Ft
+
+namespace Ft
+namespace St
+
+theorem book_mem_iff {s : St} (hb : BookOK s) (tid : Nat) (c : Node) :
+    c ∈ (alook tid s.t2n).getD [] ↔ (c ∈ s.ids ∧ s.tidOf c = some tid) := by
+  rw [← hb.t_iff tid c]
+  constructor
+  · intro h
+    rcases hl : alook tid s.t2n with _ | l
+    · rw [hl] at h; simp at h
+    · rw [hl] at h; exact ⟨l, rfl, h⟩
+  · rintro ⟨l, hl, hc⟩; rw [hl]; exact hc
+
+theorem outdeg_pos_of_mem {s : St} {p c : Node} (h : (p, c) ∈ s.edgeList) : 1 ≤ s.outdeg p := by
+  rw [outdeg_eq]
+  exact List.length_pos_of_mem (List.mem_filter.mpr ⟨h, by simp⟩)
+
+/-- under consistent bookkeeping and the local track-id rule the neighbour query of
+    `UserAddNode` is harmless -/
+theorem nbrAddOK_of_book {s : St} (hf : Forest s) (ht : TidOK s) (hb : BookOK s)
+    (tid0 time : Nat) : NbrAddOK s (addTid s tid0 time) time := by
+  obtain ⟨sp1, sp2, sp3, sp4⟩ := trackNeighbors_spec s (addTid s tid0 time) time
+  refine ⟨fun p hp => ((book_mem_iff hb _ p).mp (sp3 p hp).1).1, ?_⟩
+  intro hpn sc hsc pos hpos
+  obtain ⟨scL, sct, scmin⟩ := sp1 sc hsc
+  have nolt := sp4 hpn
+  apply Classical.byContradiction
+  intro hne
+  have ho1 : s.outdeg pos = 1 := by
+    have := hf.outdeg_le pos; have := outdeg_pos_of_mem hpos; omega
+  have htid : s.tidOf sc = s.tidOf pos := ht.along (pos, sc) hpos ho1
+  have posm : pos ∈ s.ids := hf.src_mem _ hpos
+  have scm : sc ∈ s.ids := hf.dst_mem _ hpos
+  have posL : pos ∈ (alook (addTid s tid0 time) s.t2n).getD [] := by
+    rw [book_mem_iff hb]
+    exact ⟨posm, by rw [← htid]; exact ((book_mem_iff hb _ sc).mp scL).2⟩
+  have hfw : tm s pos < tm s sc :=
+    hf.forward _ hpos _ _ (timeOf_of_mem posm) (timeOf_of_mem scm)
+  have h1 := nolt pos posL
+  have h2 : ¬ tm s pos > time := fun h => by have := scmin pos posL h; omega
+  have heq : tm s pos = time := by omega
+  -- a node of the track in the very frame: the track id would have been replaced by a fresh one
+  unfold addTid at posL
+  by_cases hh : s.hasTrackAt tid0 time = true
+  · rw [if_pos hh] at posL
+    have := ((book_mem_iff hb _ pos).mp posL).2
+    have := hb.t_max pos _ this
+    unfold nextTid at this; omega
+  · rw [if_neg hh] at posL
+    apply hh
+    unfold hasTrackAt
+    rcases hl : alook tid0 s.t2n with _ | l
+    · rw [hl] at posL; simp at posL
+    · rw [hl] at posL
+      simp only [Option.getD_some] at posL
+      simp only [List.any_eq_true]
+      exact ⟨pos, posL, by rw [timeOf_of_mem posm, heq]; simp⟩
+
+end St
+end Ft
+
+namespace Ft
+namespace St
+
+/-! #### UserDeleteNode -/
+
+def delNodeLoop1 (s : St) (n : Node) : UOut :=
+  (s.preds n).foldl (fun acc p =>
+      match acc.2 with
+      | .error _ => acc
+      | .ok _ =>
+        let sibs := acc.1.succs p
+        let acc1 := if sibs.length == 2 then
+            match (sibs.erase n).head? with
+            | some sib => thenPrim acc (fun st => match st.tidOf p with
+                | some t => st.pUpdTid sib t none
+                | none => .error .key)
+            | none => acc
+          else acc
+        thenPrim acc1 (fun st => st.pDelEdge (p, n))) (s, .ok [])
+
+def delNodeLoop2 (a0 : UOut) (n : Node) : UOut :=
+  (a0.1.succs n).foldl (fun acc c => thenPrim acc (fun st => st.pDelEdge (n, c))) a0
+
+/-- the state in which `uDeleteNode` asks for the track neighbours: all edges at `n` removed,
+    the sibling of `n` (if any) relabelled -/
+def delNodeMid (s : St) (n : Node) : UOut := delNodeLoop2 (delNodeLoop1 s n) n
+
+def delNodeTail (a1 : UOut) (orphans0 : List Node) (hasPred : Bool) (n : Node)
+    (pixels : Option (List Pix)) (tid time : Nat) : UOut :=
+      let r := a1.1.trackNeighbors tid time
+      let a1' : UOut := (r.1, a1.2)
+      let a2o : UOut × List Node :=
+        match r.2.1, r.2.2 with
+        | some p, some sc => (thenPrim a1' (fun st => st.pAddEdge (p, sc) []), orphans0.erase sc)
+        | _, _ => (a1', orphans0)
+      let idx := List.zip (List.range a2o.2.length) a2o.2
+      let a3 : UOut := idx.foldl (fun acc io =>
+          if hasPred || io.1 > 0 then
+            thenPrim acc (fun st => match st.tidOf io.2 with
+              | some t => st.pUpdTid io.2 t (some st.nextLin)
+              | none => .error .key)
+          else acc) a2o.1
+      thenPrim a3 (fun st => st.pDelNode n pixels)
+
+theorem uDeleteNode_eq (s : St) (n : Node) (pixels : Option (List Pix)) :
+    s.uDeleteNode n pixels =
+      if !(s.hasNode n) then (s, .error .key) else
+      let a0 := delNodeLoop1 s n
+      match a0.2 with
+      | .error err => (a0.1, .error err)
+      | .ok _ =>
+        let a1 := delNodeLoop2 a0 n
+        match a1.2, a1.1.tidOf n, a1.1.timeOf n with
+        | .error err, _, _ => (a1.1, .error err)
+        | .ok _, some tid, some time =>
+          delNodeTail a1 (a0.1.succs n) (!(s.preds n).isEmpty) n pixels tid time
+        | .ok _, _, _ => (a1.1, .error .key) := by
+  rfl
+
+end St
+end Ft
+
+namespace Ft
+namespace St
+
+theorem thenPrim_inv (P : St → Prop) {a : UOut} {f : St → Except Err (St × PrimRec)} (ha : P a.1)
+    (hf : ∀ st st' r, P st → f st = .ok (st', r) → P st') : P (thenPrim a f).1 := by
+  unfold thenPrim
+  split
+  · exact ha
+  · split
+    · rename_i h; exact hf _ _ _ ha h
+    · exact ha
+
+/-- "forest with the node table of `s`" — what the edge-deleting loops maintain -/
+def FN (s : St) (st : St) : Prop := Forest st ∧ st.nt = s.nt
+
+theorem FN_of_GPres {s : St} {f : St → Except Err (St × PrimRec)} (h : GPres f) :
+    ∀ st st' r, FN s st → f st = .ok (st', r) → FN s st' :=
+  fun _ _ _ hp hk => ⟨forest_congr (h _ _ _ hk) hp.1, by rw [G_nt (h _ _ _ hk)]; exact hp.2⟩
+
+theorem FN_pDelEdge {s : St} (e : Edge) :
+    ∀ st st' r, FN s st → st.pDelEdge e = .ok (st', r) → FN s st' :=
+  fun _ _ _ hp hk => ⟨pDelEdge_forest hp.1 hk, by rw [G_nt' (pDelEdge_G hk).2]; exact hp.2⟩
+
+theorem foldl_inv {α β} (P : α → Prop) (f : α → β → α) (l : List β) (a : α) (ha : P a)
+    (hf : ∀ a b, P a → P (f a b)) : P (l.foldl f a) := by
+  induction l generalizing a with
+  | nil => exact ha
+  | cons x r ih => exact ih _ (hf _ _ ha)
+
+theorem delNodeLoop1_FN {s : St} (n : Node) (hf : Forest s) : FN s (delNodeLoop1 s n).1 := by
+  unfold delNodeLoop1
+  apply foldl_inv (fun acc : UOut => FN s acc.1)
+  · exact ⟨hf, rfl⟩
+  · intro acc p hacc
+    simp only []
+    split
+    · exact hacc
+    · apply thenPrim_inv (FN s) _ (FN_pDelEdge _)
+      split
+      · split
+        · exact thenPrim_inv (FN s) hacc (FN_of_GPres (GPres_updTid_of _ _ _))
+        · exact hacc
+      · exact hacc
+
+theorem delNodeLoop2_FN {s : St} {a0 : UOut} (n : Node) (h0 : FN s a0.1) :
+    FN s (delNodeLoop2 a0 n).1 := by
+  unfold delNodeLoop2
+  apply foldl_inv (fun acc : UOut => FN s acc.1)
+  · exact h0
+  · intro acc c hacc
+    exact thenPrim_inv (FN s) hacc (FN_pDelEdge _)
+
+theorem delNodeMid_FN {s : St} (n : Node) (hf : Forest s) : FN s (delNodeMid s n).1 :=
+  delNodeLoop2_FN n (delNodeLoop1_FN n hf)
+
+/-- the condition on the neighbour query of `UserDeleteNode` (asked in `delNodeMid`): the
+    bridging edge `pred → succ` does not create a merge or a third child -/
+def DelNbrOK (s : St) (n : Node) : Prop :=
+  let s1 := (delNodeMid s n).1
+  match s1.tidOf n, s1.timeOf n with
+  | some tid, some time =>
+    match (s1.trackNeighbors tid time).2.1, (s1.trackNeighbors tid time).2.2 with
+    | some p, some sc => s1.indeg sc = 0 ∧ s1.outdeg p ≤ 1
+    | _, _ => True
+  | _, _ => True
+
+instance (s : St) (n : Node) : Decidable (DelNbrOK s n) := by
+  unfold DelNbrOK
+  simp only []
+  split
+  · split
+    · infer_instance
+    · infer_instance
+  · infer_instance
+
+theorem delNodeTail_FOk {a1 : UOut} {orphans0 : List Node} {hasPred : Bool} {n : Node}
+    {pixels : Option (List Pix)} {tid time : Nat}
+    (hf : Forest a1.1)
+    (hN : ∀ p sc, (a1.1.trackNeighbors tid time).2.1 = some p →
+        (a1.1.trackNeighbors tid time).2.2 = some sc → a1.1.indeg sc = 0 ∧ a1.1.outdeg p ≤ 1) :
+    FOk (delNodeTail a1 orphans0 hasPred n pixels tid time) := by
+  unfold delNodeTail
+  simp only []
+  obtain ⟨sp1, -, sp3, -⟩ := trackNeighbors_spec a1.1 tid time
+  generalize hr : a1.1.trackNeighbors tid time = r at hN sp1 sp3 ⊢
+  have hGr : G r.1 = G a1.1 := by rw [← hr]; exact G_trackNeighbors _ _ _
+  have hfr : Forest r.1 := forest_congr hGr hf
+  apply thenPrim_FOk _ (fun _ _ _ h1 h2 => pDelNode_forest h1 h2)
+  -- the relabelling loop
+  have loop : ∀ (l : List (Nat × Node)) (a2 : UOut), FOk a2 →
+      FOk (l.foldl (fun acc io =>
+          if hasPred || io.1 > 0 then
+            thenPrim acc (fun st => match st.tidOf io.2 with
+              | some t => st.pUpdTid io.2 t (some st.nextLin)
+              | none => .error .key)
+          else acc) a2) := by
+    intro l a2 h2
+    apply foldl_inv FOk _ _ _ h2
+    intro acc io hacc
+    split
+    · exact thenPrim_FOk hacc (FPresP_of_GPres (GPres_updTid_of _ _ _))
+    · exact hacc
+  apply loop
+  have base : FOk (r.1, a1.2) := fun _ _ => hfr
+  rcases hp : r.2.1 with _ | p
+  · exact base
+  · rcases hs : r.2.2 with _ | sc
+    · exact base
+    · simp only []
+      intro rr hrr
+      obtain ⟨_, st', _, _, hk, h2, _⟩ := thenPrim_ok hrr
+      rw [h2]
+      obtain ⟨n1, n2⟩ := hN p sc hp hs
+      refine (pAddEdge_forest_G hfr ?_ ?_ ?_ hk).1
+      · rw [G_indeg hGr]; exact n1
+      · rw [G_outdeg hGr]; exact n2
+      · show tm r.1 p < tm r.1 sc
+        rw [tm_congr (G_nt hGr), tm_congr (G_nt hGr)]
+        have := (sp3 p hp).2.1; have := (sp1 sc hs).2.1; omega
+
+theorem uDeleteNode_forest_of {s : St} {n : Node} {pixels : Option (List Pix)} {recs : List PrimRec}
+    (hf : Forest s) (hN : DelNbrOK s n) (h : (s.uDeleteNode n pixels).2 = .ok recs) :
+    Forest (s.uDeleteNode n pixels).1 := by
+  revert recs
+  change FOk (s.uDeleteNode n pixels)
+  rw [uDeleteNode_eq]
+  have err : ∀ (st : St) (e : Err), FOk (st, .error e) := fun _ e r h => by cases h
+  split
+  · exact err _ _
+  · simp only []
+    split
+    · exact err _ _
+    · have hmid := (delNodeMid_FN n hf).1
+      unfold DelNbrOK at hN
+      unfold delNodeMid at hmid hN
+      simp only [] at hN
+      split
+      · exact err _ _
+      · rename_i tid time _ htid htime
+        rw [htid, htime] at hN
+        simp only [] at hN
+        apply delNodeTail_FOk hmid
+        intro p sc hp hs
+        rw [hp, hs] at hN
+        exact hN
+      · exact err _ _
+
+end St
+end Ft
+
+namespace Ft
+namespace St
+
+/-! ### Boolean checkers for `TidOK` and `BookOK` (soundness only; used for the examples) -/
+
+def isHeadB (s : St) (a : Node) : Bool :=
+  s.ids.contains a && s.edgeList.all (fun e => e.2 != a || s.outdeg e.1 == 2)
+
+theorem isHeadB_iff (s : St) (a : Node) : isHeadB s a = true ↔ IsHead s a := by
+  unfold isHeadB IsHead
+  simp only [Bool.and_eq_true, List.contains_iff_mem, List.all_eq_true, Bool.or_eq_true,
+    bne_iff_ne, beq_iff_eq]
+  constructor
+  · rintro ⟨h1, h2⟩
+    refine ⟨h1, fun p hp => ?_⟩
+    rcases h2 (p, a) hp with h | h
+    · exact absurd rfl h
+    · exact h
+  · rintro ⟨h1, h2⟩
+    refine ⟨h1, fun e he => ?_⟩
+    by_cases c : e.2 = a
+    · right; subst c; exact h2 e.1 he
+    · left; exact c
+
+def tidB (s : St) : Bool :=
+  s.edgeList.all (fun e => s.outdeg e.1 != 1 || s.tidOf e.2 == s.tidOf e.1) &&
+  s.ids.all (fun a => s.ids.all (fun b =>
+    !(isHeadB s a && isHeadB s b && a != b) || s.tidOf a != s.tidOf b))
+
+theorem tidB_sound {s : St} (h : tidB s = true) : TidOK s := by
+  unfold tidB at h
+  simp only [Bool.and_eq_true, List.all_eq_true, Bool.or_eq_true, bne_iff_ne, beq_iff_eq,
+    Bool.not_eq_true', Bool.and_eq_false_iff] at h
+  refine ⟨?_, ?_⟩
+  · intro e he ho
+    rcases h.1 e he with h' | h'
+    · exact absurd ho h'
+    · exact h'
+  · intro a b ha hb hab
+    rcases h.2 a ha.1 b hb.1 with h' | h'
+    · rcases h' with (h' | h') | h'
+      · rw [← Bool.not_eq_true, isHeadB_iff] at h'; exact absurd ha h'
+      · rw [← Bool.not_eq_true, isHeadB_iff] at h'; exact absurd hb h'
+      · simp at h'; exact absurd h' hab
+    · exact h'
+
+theorem alook_mem {β} {k : Nat} {v : β} {m : List (Nat × β)} (h : alook k m = some v) :
+    (k, v) ∈ m := by
+  induction m with
+  | nil => simp [alook] at h
+  | cons a r ih =>
+    obtain ⟨k', v'⟩ := a
+    unfold alook at h
+    split at h
+    · rename_i hk
+      have : k' = k := by simpa using hk
+      simp only [Option.some.injEq] at h
+      rw [this, h]; exact List.mem_cons_self
+    · exact List.mem_cons_of_mem _ (ih h)
+
+def bookMapB (m : List (Nat × List Node)) (ids : List Node) (val : Node → Option Nat) (mx : Nat) :
+    Bool :=
+  m.all (fun kv => kv.2.all (fun n => ids.contains n && val n == some kv.1)) &&
+  ids.all (fun n => match val n with
+    | some t => (match alook t m with
+        | some l => l.contains n
+        | none => false) && decide (t ≤ mx)
+    | none => true)
+
+theorem bookMapB_sound {m : List (Nat × List Node)} {ids : List Node} {val : Node → Option Nat}
+    {mx : Nat} (h : bookMapB m ids val mx = true) (hval : ∀ n t, val n = some t → n ∈ ids) :
+    (∀ id n, (∃ l, alook id m = some l ∧ n ∈ l) ↔ (n ∈ ids ∧ val n = some id)) ∧
+    (∀ n t, val n = some t → t ≤ mx) := by
+  unfold bookMapB at h
+  simp only [Bool.and_eq_true, List.all_eq_true, List.contains_iff_mem, beq_iff_eq] at h
+  obtain ⟨h1, h2⟩ := h
+  have key : ∀ n t, val n = some t → (∃ l, alook t m = some l ∧ n ∈ l) ∧ t ≤ mx := by
+    intro n t hv
+    have := h2 n (hval n t hv)
+    rw [hv] at this
+    simp only [Bool.and_eq_true, decide_eq_true_eq] at this
+    refine ⟨?_, this.2⟩
+    rcases hl : alook t m with _ | l
+    · rw [hl] at this; simp at this
+    · rw [hl] at this; exact ⟨l, rfl, by simpa using this.1⟩
+  refine ⟨fun id n => ⟨?_, ?_⟩, fun n t hv => (key n t hv).2⟩
+  · rintro ⟨l, hl, hn⟩
+    exact h1 (id, l) (alook_mem hl) n hn
+  · rintro ⟨_, hv⟩
+    exact (key n id hv).1
+
+def bookB (s : St) : Bool :=
+  decide (s.t2n.map (·.1)).Nodup && s.t2n.all (fun kv => decide kv.2.Nodup) &&
+  decide (s.l2n.map (·.1)).Nodup && s.l2n.all (fun kv => decide kv.2.Nodup) &&
+  bookMapB s.t2n s.ids s.tidOf s.maxTid &&
+  (!s.linOn || bookMapB s.l2n s.ids s.linOf s.maxLin)
+
+theorem findNode_mem_ids {s : St} {n : Node} {r : NodeRec} (h : s.findNode n = some r) : n ∈ s.ids := by
+  rw [← hasNode_iff]; simp [hasNode, h]
+
+theorem bookB_sound {s : St} (h : bookB s = true) : BookOK s := by
+  unfold bookB at h
+  simp only [Bool.and_eq_true, decide_eq_true_eq, List.all_eq_true, Bool.or_eq_true,
+    Bool.not_eq_true'] at h
+  obtain ⟨⟨⟨⟨⟨k1, n1⟩, k2⟩, n2⟩, bt⟩, bl⟩ := h
+  have vt : ∀ n t, s.tidOf n = some t → n ∈ s.ids := by
+    intro n t hv; unfold tidOf at hv
+    rcases hf : s.findNode n with _ | r
+    · rw [hf] at hv; simp at hv
+    · exact findNode_mem_ids hf
+  have vl : ∀ n t, s.linOf n = some t → n ∈ s.ids := by
+    intro n t hv; unfold linOf at hv
+    rcases hf : s.findNode n with _ | r
+    · rw [hf] at hv; simp at hv
+    · exact findNode_mem_ids hf
+  obtain ⟨t1, t2⟩ := bookMapB_sound bt vt
+  refine ⟨k1, fun id l hl => n1 _ (alook_mem hl), t1, t2, k2, fun id l hl => n2 _ (alook_mem hl), ?_, ?_⟩
+  · intro hon
+    rcases bl with bl | bl
+    · rw [hon] at bl; cases bl
+    · exact (bookMapB_sound bl vl).1
+  · intro hon
+    rcases bl with bl | bl
+    · rw [hon] at bl; cases bl
+    · exact (bookMapB_sound bl vl).2
+
+end St
+end Ft
+
+
+namespace Ft
+namespace St
+
+/-! #### UserUpdateSegmentation -/
+
+def paintStep (acc : UOut) (grp : List Pix × Nat) : UOut :=
+  match acc.2 with
+  | .error _ => acc
+  | .ok _ =>
+    if grp.2 == 0 then acc else
+    match acc.1.seg, grp.1.head? with
+    | some g, some p0 =>
+      let time := p0 / g.frame
+      if (g.offsetsOf time grp.2).isEmpty then
+        thenUser acc (fun st => st.uDeleteNode grp.2 (some grp.1))
+      else thenPrim acc (fun st => st.pUpdSeg grp.2 grp.1 false)
+    | _, _ => (acc.1, .error .other)
+
+def paintFinal (a0 : UOut) (recs0 : List PrimRec) (newValue : Nat) (groups : List (List Pix × Nat))
+    (curTid : Nat) (force : Bool) : UOut × Option Node :=
+    if newValue != 0 && !groups.isEmpty then
+      let allPix := groups.flatMap (·.1)
+      match a0.1.seg, allPix.head? with
+      | some g, some p0 =>
+        let time := p0 / g.frame
+        if a0.1.hasNode newValue then
+          (thenPrim a0 (fun st => st.pUpdSeg newValue allPix true), none)
+        else
+          let r := a0.1.uAddNode { node := newValue, time := some time, tid := some curTid,
+                                   lin := none, other := [], pixels := some allPix, force := force }
+          match r.2 with
+          | .ok recs' => ((r.1, .ok (recs0 ++ recs')), some newValue)
+          | .error err => ((r.1.rollback recs0, .error err), none)
+      | _, _ => ((a0.1, .error .other), none)
+    else (a0, none)
+
+theorem uUpdateSeg_eq (s : St) (newValue : Nat) (groups : List (List Pix × Nat)) (curTid : Nat)
+    (force : Bool) :
+    s.uUpdateSeg newValue groups curTid force =
+      match s.seg with
+      | none => ((s, .error .value), none)
+      | some _ =>
+        let a0 := groups.foldl paintStep (s, .ok [])
+        match a0.2 with
+        | .error err => ((a0.1, .error err), none)
+        | .ok recs0 => paintFinal a0 recs0 newValue groups curTid force := by
+  rfl
+
+/-- "if the outcome is ok, the state satisfies `I`" -/
+def IOk (I : St → Prop) (a : UOut) : Prop := ∀ r, a.2 = .ok r → I a.1
+
+/-- `UserUpdateSegmentation` composes `UserDeleteNode` / `UpdateNodeSeg` per overwritten label and
+    then `UpdateNodeSeg` / `UserAddNode`: it keeps a forest whenever an invariant `I ⊆ Forest` is
+    kept by accepted delete-node and by the seg primitive and lets accepted add-node keep the
+    forest -/
+theorem uUpdateSeg_forest_of (I : St → Prop)
+    (hIF : ∀ st, I st → Forest st)
+    (hDel : ∀ st n px r, I st → (st.uDeleteNode n px).2 = .ok r → I (st.uDeleteNode n px).1)
+    (hSeg : ∀ st st' n px b r, I st → st.pUpdSeg n px b = .ok (st', r) → I st')
+    (hAdd : ∀ st a r, I st → (st.uAddNode a).2 = .ok r → Forest (st.uAddNode a).1)
+    {s : St} {newValue : Nat} {groups : List (List Pix × Nat)} {curTid : Nat} {force : Bool}
+    {recs : List PrimRec} (hI : I s)
+    (h : (s.uUpdateSeg newValue groups curTid force).1.2 = .ok recs) :
+    Forest (s.uUpdateSeg newValue groups curTid force).1.1 := by
+  revert recs
+  change FOk (s.uUpdateSeg newValue groups curTid force).1
+  rw [uUpdateSeg_eq]
+  have err : ∀ (st : St) (e : Err), FOk (st, .error e) := fun _ e r h => by cases h
+  have ierr : ∀ (st : St) (e : Err), IOk I (st, .error e) := fun _ e r h => by cases h
+  split
+  · exact err _ _
+  · simp only []
+    have hloop : IOk I (groups.foldl paintStep (s, .ok [])) := by
+      apply foldl_inv (IOk I)
+      · exact fun _ _ => hI
+      · intro acc grp hacc
+        unfold paintStep
+        split
+        · exact hacc
+        · split
+          · exact hacc
+          · split
+            · simp only []
+              split
+              · intro r hr
+                obtain ⟨r0, r1, h0, h1, h2, -⟩ := thenUser_ok hr
+                rw [h2]; exact hDel _ _ _ _ (hacc _ h0) h1
+              · intro r hr
+                obtain ⟨r0, st', r1, h0, h1, h2, -⟩ := thenPrim_ok hr
+                rw [h2]; exact hSeg _ _ _ _ _ _ (hacc _ h0) h1
+            · exact ierr _ _
+    generalize groups.foldl paintStep (s, .ok []) = a0 at hloop ⊢
+    rcases h0 : a0.2 with e | recs0
+    · exact err _ _
+    · simp only []
+      have hI0 : I a0.1 := hloop _ h0
+      unfold paintFinal
+      split
+      · simp only []
+        split
+        · split
+          · exact thenPrim_FOk (fun _ _ => hIF _ hI0)
+              (fun _ _ _ hf hk => forest_congr (pUpdSeg_G hk) hf)
+          · split
+            · rename_i recs' hr
+              intro _ _
+              exact hAdd _ _ _ hI0 hr
+            · exact err _ _
+        · exact err _ _
+      · exact fun _ _ => hIF _ hI0
+
+end St
+end Ft
+
+namespace Ft
+namespace St
+
+/-! #### session level: `commit` only touches history and refresh log -/
+
+theorem commit_forest {r : UOut} {p : Option Node} (h : FOk r)
+    (hne : ∀ e, (commit r p).2 ≠ .err e) : Forest (commit r p).1 := by
+  unfold commit at hne ⊢
+  rcases hr : r.2 with e | recs
+  · rw [hr] at hne; exact absurd rfl (hne e)
+  · simp only []
+    exact forest_congr (s := r.1) rfl (h _ hr)
+
+/-- the operations covered by `C03_step_session` -/
+def c03Covered : Op → Bool
+  | .paint .. | .undo | .redo | .enable .. => false
+  | _ => true
+
+theorem step_forest {s : St} {op : Op} (hf : Forest s) (ht : TidOK s) (hb : BookOK s)
+    (hd : ∀ n, op = .delNode n → DelNbrOK s n) (hop : c03Covered op = true)
+    (hne : ∀ e, (s.step op).2 ≠ .err e) : Forest (s.step op).1 := by
+  cases op with
+  | addEdge e f => exact commit_forest (fun _ h => uAddEdge_forest hf h) hne
+  | delEdge e => exact commit_forest (fun _ _ => uDeleteEdge_forest e hf) hne
+  | addNode a =>
+    exact commit_forest (fun _ h => uAddNode_forest_of hf
+      (fun time tid0 _ _ => nbrAddOK_of_book hf ht hb tid0 time) h) hne
+  | delNode n => exact commit_forest (fun _ h => uDeleteNode_forest_of hf (hd n rfl) h) hne
+  | swap a b => exact commit_forest (fun _ h => uSwap_forest hf h) hne
+  | updAttrs n attrs =>
+    exact commit_forest (fun _ _ => forest_congr (uUpdateAttrs_G s n attrs) hf) hne
+  | paint => cases hop
+  | undo => cases hop
+  | redo => cases hop
+  | enable => cases hop
+  | disable ks =>
+    unfold step
+    simp only []
+    split
+    · rename_i s' h
+      unfold disable at h
+      split at h
+      · cases h
+      · simp only [Option.some.injEq] at h
+        rw [← h]; exact forest_congr (s := s) rfl hf
+    · exact hf
+  | qNeighbors tid time => exact forest_congr (G_trackNeighbors s tid time) hf
+  | qHasTrack => exact hf
+  | qNewIds n => exact forest_congr (G_newNodeIds s n) hf
+  | nop => exact hf
+
+end St
+end Ft
+
+namespace Ft
+namespace St
+
+/-! #### rollback of a nested `UserDeleteEdge` (forced add-edge refused for a third child) -/
+
+/-- a relabel record whose start node exists -/
+def IsUpd (ids : List Node) (r : PrimRec) : Prop :=
+  ∃ st oT nT oL nL, r = .updTid st oT nT oL nL ∧ st ∈ ids
+
+theorem pUpdTid_rec {s s' : St} {st nT : Nat} {nL : Option Nat} {r : PrimRec}
+    (h : s.pUpdTid st nT nL = .ok (s', r)) : IsUpd s.ids r := by
+  unfold pUpdTid at h
+  split at h
+  · cases h
+  · rename_i nr hnr
+    simp only [Except.ok.injEq, Prod.mk.injEq] at h
+    exact ⟨st, _, _, _, _, h.2.symm, findNode_mem_ids hnr⟩
+
+theorem updTid_of_rec {s s' : St} {a b : Node} {l : Option Nat} {r : PrimRec}
+    (h : (match s.tidOf a with
+      | some t => s.pUpdTid b t l
+      | none => .error .key) = .ok (s', r)) : IsUpd s.ids r := by
+  split at h
+  · exact pUpdTid_rec h
+  · cases h
+
+def invStep (acc : St × Except Err (List PrimRec)) (p : PrimRec) : St × Except Err (List PrimRec) :=
+  match acc.2 with
+  | .error e => (acc.1, .error e)
+  | .ok done =>
+    match acc.1.invPrim p with
+    | .ok (s', r) => (s', .ok (done ++ [r]))
+    | .error e => (acc.1, .error e)
+
+theorem invGroup_eq (s : St) (recs : List PrimRec) :
+    s.invGroup recs = recs.reverse.foldl invStep (s, .ok []) := rfl
+
+theorem findNode_of_mem {s : St} {n : Node} (h : n ∈ s.ids) : ∃ r, s.findNode n = some r := by
+  rw [← hasNode_iff] at h
+  unfold hasNode at h
+  rcases hf : s.findNode n with _ | r
+  · rw [hf] at h; cases h
+  · exact ⟨r, rfl⟩
+
+theorem invFold_upds (l : List PrimRec) (s : St) (d : List PrimRec)
+    (h : ∀ r ∈ l, IsUpd s.ids r) :
+    ∃ s' d', l.foldl invStep (s, .ok d) = (s', .ok d') ∧ G s' = G s := by
+  induction l generalizing s d with
+  | nil => exact ⟨s, d, rfl, rfl⟩
+  | cons p r ih =>
+    obtain ⟨st, oT, nT, oL, nL, hp, hm⟩ := h p List.mem_cons_self
+    obtain ⟨nr, hnr⟩ := findNode_of_mem hm
+    have h1 : invStep (s, .ok d) p =
+        (s.walk st nr.tid oT nr.lin oL, .ok (d ++ [.updTid st nr.tid oT nr.lin oL])) := by
+      subst hp
+      simp [invStep, invPrim, pUpdTid, hnr]
+    rw [List.foldl_cons, h1]
+    have hG : G (s.walk st nr.tid oT nr.lin oL) = G s := G_walk _ _ _ _ _ _
+    obtain ⟨s', d', e1, e2⟩ := ih (s.walk st nr.tid oT nr.lin oL) _
+      (fun x hx => by rw [G_ids hG]; exact h x (List.mem_cons_of_mem _ hx))
+    exact ⟨s', d', e1, e2.trans hG⟩
+
+/-- records of an accepted `UserDeleteEdge`: the `DeleteEdge`, then relabels of existing nodes -/
+theorem uDeleteEdge_recs {s : St} {e : Edge} {recs : List PrimRec}
+    (h : (s.uDeleteEdge e).2 = .ok recs) :
+    ∃ saved rest, recs = .delEdge e saved :: rest ∧ ∀ r ∈ rest, IsUpd s.ids r := by
+  unfold uDeleteEdge at h
+  by_cases he : s.hasEdge e = true
+  · have he' := (hasEdge_iff _ _).mp he
+    obtain ⟨s1, r, h1⟩ := pDelEdge_isOk he'
+    have ha : thenPrim (s, .ok []) (fun st => st.pDelEdge e) = (s1, .ok [r]) := by
+      simp [thenPrim, h1]
+    have hids : s1.ids = s.ids := by
+      rw [ids_eq_nt, ids_eq_nt, G_nt' (pDelEdge_G h1).2]
+    have hr : ∃ saved, r = .delEdge e saved := by
+      unfold pDelEdge at h1
+      split at h1
+      · cases h1
+      · simp only [Except.ok.injEq, Prod.mk.injEq] at h1; exact ⟨_, h1.2.symm⟩
+    obtain ⟨saved, hr⟩ := hr
+    simp only [he, Bool.not_true, Bool.false_eq_true, if_false, ha] at h
+    split at h
+    · obtain ⟨r0, s', r', h0, h2, -, h4⟩ := thenPrim_ok h
+      simp only [Except.ok.injEq] at h0; subst h0
+      refine ⟨saved, [r'], by rw [h4, hr]; rfl, ?_⟩
+      intro x hx; simp at hx; subst hx
+      rw [← hids]; exact pUpdTid_rec h2
+    · split at h
+      · split at h
+        · cases h
+        · obtain ⟨r0, s', r', h0, h2, -, h4⟩ := thenPrim_ok h
+          obtain ⟨r00, s'', r'', h00, h22, h33, h44⟩ := thenPrim_ok h0
+          simp only [Except.ok.injEq] at h00; subst h00
+          refine ⟨saved, [r'', r'], by rw [h4, h44, hr]; rfl, ?_⟩
+          have hG : G s'' = G s1 := by
+            have h5 := h22
+            simp only [] at h5
+            split at h5
+            · exact pUpdTid_G h5
+            · cases h5
+          intro x hx; simp at hx
+          rcases hx with rfl | rfl
+          · rw [← hids]; exact updTid_of_rec (s := s1) h22
+          · rw [← hids, ← G_ids hG, ← h33]; exact updTid_of_rec h2
+      · cases h
+  · simp [he] at h
+
+end St
+end Ft
+
+namespace Ft
+namespace St
+
+theorem pAddEdge_isOk {s : St} {e : Edge} (at_ : List (Key × Val)) (h1 : e.1 ∈ s.ids)
+    (h2 : e.2 ∈ s.ids) : ∃ s' r, s.pAddEdge e at_ = .ok (s', r) := by
+  unfold pAddEdge
+  rw [← hasNode_iff] at h1 h2
+  simp [h1, h2]
+
+/-- rolling back an accepted `UserDeleteEdge` restores nodes, times and the edge set -/
+theorem rollback_uDeleteEdge {s : St} {e : Edge} {recs : List PrimRec}
+    (h1 : e.1 ∈ s.ids) (h2 : e.2 ∈ s.ids) (h : (s.uDeleteEdge e).2 = .ok recs) :
+    G ((s.uDeleteEdge e).1.rollback recs) = (s.nt, s.edgeList.filter (· != e) ++ [e]) := by
+  obtain ⟨saved, rest, hrecs, hrest⟩ := uDeleteEdge_recs h
+  have hG := uDeleteEdge_G' s e
+  generalize (s.uDeleteEdge e).1 = s1 at hG ⊢
+  have hids : s1.ids = s.ids := by rw [ids_eq_nt, ids_eq_nt, G_nt' hG]
+  unfold rollback
+  rw [invGroup_eq, hrecs, List.reverse_cons, List.foldl_append]
+  obtain ⟨s2, d2, e1, e2⟩ := invFold_upds rest.reverse s1 []
+    (fun r hr => by rw [hids]; exact hrest r (List.mem_reverse.mp hr))
+  rw [e1]
+  have hids2 : s2.ids = s.ids := by rw [G_ids e2, hids]
+  obtain ⟨s3, r3, h3⟩ := pAddEdge_isOk (s := s2) saved (by rw [hids2]; exact h1) (by rw [hids2]; exact h2)
+  have : [PrimRec.delEdge e saved].foldl invStep (s2, .ok d2) = (s3, .ok (d2 ++ [r3])) := by
+    simp [invStep, invPrim, h3]
+  rw [this]
+  obtain ⟨-, -, hG3⟩ := pAddEdge_G h3
+  rw [hG3, G_nt e2, G_es e2, G_nt' hG, G_es' hG]
+  have : e ∉ s.edgeList.filter (· != e) := by simp
+  rw [if_neg this]
+
 end St
 end Ft
